@@ -1,1 +1,188 @@
+(* C06 — Candidate-value intersection and exclusion are exact set operations.
+   Only statements, `exact` proofs, Print Assumptions and non-vacuity examples live here.
+
+   Model: Cand.v (transcription of interpreter/hints/candidates.rs).  `mem c x` is the set
+   denotation of a candidate (Impossible = {}, Single v = {x | x == v}, Multiple l = {x | l.contains(x)},
+   Range r = {x | r.contains(x)}, All = everything).  `wf_cand` says range bounds are not null —
+   exactly what Range::new / with_start / with_end assert.  The transcribed functions return
+   `res`: `Panic` models assert! / debug_assert! / unreachable! / expect. *)
 From TF Require Import Values ValuesProofs Cand CandProofs.
+Open Scope Z_scope.
+
+(* ------------------------------------------------------------------------------------------ *)
+(* A. Over ANY carrier whose partial_cmp is a total preorder comparator consistent with ==,   *)
+(*    and whose is_null is `== T::default()` (carrier_laws).                                  *)
+(* ------------------------------------------------------------------------------------------ *)
+
+(* intersect yields exactly the values (including null) contained in both *)
+Theorem C06_generic_intersect_exact :
+  forall T eqb cmp is_null null, @carrier_laws T eqb cmp is_null null ->
+  forall a b c x, wf_cand is_null a = true -> wf_cand is_null b = true ->
+    intersect eqb cmp is_null null a b = Ok c ->
+    mem eqb cmp is_null c x = mem eqb cmp is_null a x && mem eqb cmp is_null b x.
+Proof. exact g_mem_intersect. Qed.
+Print Assumptions C06_generic_intersect_exact.
+
+(* normalize never changes which values a candidate contains *)
+Theorem C06_generic_normalize_exact :
+  forall T eqb cmp is_null null, @carrier_laws T eqb cmp is_null null ->
+  forall a c x, wf_cand is_null a = true -> normalize eqb cmp null a = Ok c ->
+    mem eqb cmp is_null c x = mem eqb cmp is_null a x.
+Proof. exact g_mem_normalize. Qed.
+Print Assumptions C06_generic_normalize_exact.
+
+(* excluding a value yields a subset of the original ... *)
+Theorem C06_generic_exclude_sub :
+  forall T eqb cmp is_null null, @carrier_laws T eqb cmp is_null null ->
+  forall a v c x, wf_cand is_null a = true -> exclude eqb cmp is_null null a v = Ok c ->
+    mem eqb cmp is_null c x = true -> mem eqb cmp is_null a x = true.
+Proof. exact g_exclude_sub. Qed.
+Print Assumptions C06_generic_exclude_sub.
+
+(* ... that still contains everything else the original contained *)
+Theorem C06_generic_exclude_sup :
+  forall T eqb cmp is_null null, @carrier_laws T eqb cmp is_null null ->
+  forall a v c x, wf_cand is_null a = true -> exclude eqb cmp is_null null a v = Ok c ->
+    mem eqb cmp is_null a x = true -> eqb x v = false -> mem eqb cmp is_null c x = true.
+Proof. exact g_exclude_sup. Qed.
+Print Assumptions C06_generic_exclude_sup.
+
+(* no panic (neither the debug_assert!s, nor unreachable!, nor expect, nor the model's fuel) on
+   well-formed inputs; well-formedness and any per-value invariant P are preserved.  No order
+   laws are needed for these. *)
+Theorem C06_generic_intersect_total :
+  forall T eqb cmp is_null null (P : T -> bool), P null = true ->
+  forall a b, wf_cand is_null a = true -> wf_cand is_null b = true ->
+    exists c, intersect eqb cmp is_null null a b = Ok c /\ wf_cand is_null c = true /\
+              (cand_all P P a = true -> cand_all P P b = true -> cand_all P P c = true).
+Proof. exact intersect_total. Qed.
+Print Assumptions C06_generic_intersect_total.
+
+Theorem C06_generic_normalize_total :
+  forall T eqb cmp is_null null (P : T -> bool), P null = true ->
+  forall a, exists c, normalize eqb cmp null a = Ok c /\
+              (wf_cand is_null a = true -> wf_cand is_null c = true) /\
+              (cand_all P P a = true -> cand_all P P c = true).
+Proof. exact normalize_total. Qed.
+Print Assumptions C06_generic_normalize_total.
+
+Theorem C06_generic_exclude_total :
+  forall T eqb cmp is_null null (P : T -> bool), P null = true ->
+  forall a v, exists c, exclude eqb cmp is_null null a v = Ok c /\
+              (wf_cand is_null a = true -> wf_cand is_null c = true) /\
+              (cand_all P P a = true -> cand_all P P c = true).
+Proof. exact exclude_total. Qed.
+Print Assumptions C06_generic_exclude_total.
+
+(* the hypotheses of part A are satisfiable: FieldValue's total comparator satisfies them (C08) *)
+Theorem C06_fv_satisfies_carrier_laws : carrier_laws eqT cmpT fv_is_null Null.
+Proof. exact fv_laws. Qed.
+Print Assumptions C06_fv_satisfies_carrier_laws.
+
+(* ------------------------------------------------------------------------------------------ *)
+(* B. Closed theorems about the FieldValue instance that the correspondence run ties to the   *)
+(*    implementation (f_intersect etc. use the transcribed fv_eq / fv_cmp).                   *)
+(*    f_cand_ok c = range bounds non-null (Range::new) && every value well-formed (Values.wf: *)
+(*    integers in range, floats finite).                                                      *)
+(* ------------------------------------------------------------------------------------------ *)
+Theorem C06_intersect_total :
+  forall a b, f_cand_ok a = true -> f_cand_ok b = true ->
+    exists c, f_intersect a b = Ok c /\ f_cand_ok c = true.
+Proof. exact f_intersect_total. Qed.
+Print Assumptions C06_intersect_total.
+
+Theorem C06_mem_intersect :
+  forall a b c x, f_cand_ok a = true -> f_cand_ok b = true -> wf x = true ->
+    f_intersect a b = Ok c -> f_mem c x = f_mem a x && f_mem b x.
+Proof. exact f_mem_intersect. Qed.
+Print Assumptions C06_mem_intersect.
+
+Theorem C06_normalize_total :
+  forall a, exists c, f_normalize a = Ok c /\ (f_cand_ok a = true -> f_cand_ok c = true).
+Proof. exact f_normalize_total. Qed.
+Print Assumptions C06_normalize_total.
+
+Theorem C06_mem_normalize :
+  forall a c x, f_cand_ok a = true -> wf x = true -> f_normalize a = Ok c -> f_mem c x = f_mem a x.
+Proof. exact f_mem_normalize. Qed.
+Print Assumptions C06_mem_normalize.
+
+Theorem C06_exclude_total :
+  forall a v, exists c, f_exclude a v = Ok c /\ (f_cand_ok a = true -> f_cand_ok c = true).
+Proof. exact f_exclude_total. Qed.
+Print Assumptions C06_exclude_total.
+
+Theorem C06_exclude_sub :
+  forall a v c x, f_cand_ok a = true -> wf v = true -> wf x = true ->
+    f_exclude a v = Ok c -> f_mem c x = true -> f_mem a x = true.
+Proof. exact f_exclude_sub. Qed.
+Print Assumptions C06_exclude_sub.
+
+(* (the property does not ask for v itself to be removed: ranges over-approximate) *)
+Theorem C06_exclude_sup :
+  forall a v c x, f_cand_ok a = true -> wf v = true -> wf x = true ->
+    f_exclude a v = Ok c -> f_mem a x = true -> eq_t x v = false -> f_mem c x = true.
+Proof. exact f_exclude_sup. Qed.
+Print Assumptions C06_exclude_sup.
+
+(* Range::intersect / contains / degenerate *)
+Theorem C06_range_intersect_exact :
+  forall a b x, wf_range fv_is_null a = true -> wf_range fv_is_null b = true ->
+    range_vals_wf a = true -> range_vals_wf b = true -> wf x = true ->
+    exists r, f_range_intersect a b = Ok r /\ wf_range fv_is_null r = true /\ range_vals_wf r = true /\
+              f_contains r x = f_contains a x && f_contains b x.
+Proof. exact f_range_intersect_exact. Qed.
+Print Assumptions C06_range_intersect_exact.
+
+Theorem C06_degenerate_contains_no_non_null :
+  forall r x, range_vals_wf r = true -> wf x = true ->
+    f_degenerate r = true -> fv_is_null x = false -> f_contains r x = false.
+Proof. exact f_degenerate_no_non_null. Qed.
+Print Assumptions C06_degenerate_contains_no_non_null.
+
+(* Range::new panics exactly when a bound value is null; otherwise it builds the range as given *)
+Theorem C06_range_new_panics_iff_null_bound :
+  forall s e n, f_range_new s e n =
+    if bound_not_null fv_is_null s && bound_not_null fv_is_null e
+    then Ok (mkRange s e n) else Panic "candidates.rs:assert cannot bound range with null value".
+Proof. exact f_range_new_spec. Qed.
+Print Assumptions C06_range_new_panics_iff_null_bound.
+
+(* ------------------------------------------------------------------------------------------ *)
+(* non-vacuity: concrete well-formed candidates with mixed I64/U64 bounds, null inclusion,    *)
+(* strings; the hypotheses hold and the operations compute non-trivial results                *)
+(* ------------------------------------------------------------------------------------------ *)
+Example C06_nonvacuous_ranges :
+  let a := CRange (mkRange (Incl (I64 (-1))) (Excl (U64 9223372036854775808)) true) in
+  let b := CRange (mkRange (Excl (U64 0)) Unb false) in
+  f_cand_ok a = true /\ f_cand_ok b = true /\
+  f_intersect a b = Ok (CRange (mkRange (Excl (U64 0)) (Excl (U64 9223372036854775808)) false)) /\
+  f_mem a (I64 0) = true /\ f_mem b (I64 0) = false /\
+  f_mem a (U64 9223372036854775807) = true /\ f_mem b (I64 9223372036854775807) = true /\
+  f_mem a Null = true /\ f_mem b Null = false /\
+  (* point-like range with null: Included(I64 1)..=Included(U64 1) *)
+  f_normalize (CRange (mkRange (Incl (I64 1)) (Incl (U64 1)) true)) = Ok (Multiple [Null; I64 1]) /\
+  (* degenerate with null -> Single(null); without -> Impossible *)
+  f_normalize (CRange (mkRange (Excl (Str "a")) (Excl (Str "a")) true)) = Ok (Single Null) /\
+  f_normalize (CRange (mkRange (Incl (U64 2)) (Incl (I64 1)) false)) = Ok Impossible /\
+  f_normalize (CRange (mkRange Unb Unb true)) = Ok All.
+Proof. vm_compute. repeat split. Qed.
+Print Assumptions C06_nonvacuous_ranges.
+
+Example C06_nonvacuous_discrete :
+  let m := Multiple [Null; Str "a"; I64 1; U64 1; Str "b"] in
+  let r := CRange (mkRange (Incl (Str "")) (Excl (Str "b")) true) in
+  f_cand_ok m = true /\ f_cand_ok r = true /\ wf (Str "a") = true /\
+  f_intersect m r = Ok (Multiple [Null; Str "a"]) /\
+  f_intersect r m = Ok (Multiple [Null; Str "a"]) /\
+  f_intersect m (Single (U64 1)) = Ok (Single (U64 1)) /\
+  f_intersect (Single (I64 1)) m = Ok (Single (I64 1)) /\
+  f_exclude m (U64 1) = Ok (Multiple [Null; Str "a"; Str "b"]) /\
+  f_exclude (CRange (mkRange (Incl (I64 0)) (Incl (U64 5)) true)) (U64 0)
+    = Ok (CRange (mkRange (Excl (I64 0)) (Incl (U64 5)) true)) /\
+  f_exclude All Null = Ok (CRange (mkRange Unb Unb false)) /\
+  f_exclude (CRange (mkRange (Incl (I64 3)) (Incl (I64 3)) true)) (I64 3) = Ok (Single Null) /\
+  f_range_new (Incl Null) Unb true = Panic "candidates.rs:assert cannot bound range with null value" /\
+  f_range_new (Incl (I64 1)) (Excl (Str "x")) false = Ok (mkRange (Incl (I64 1)) (Excl (Str "x")) false).
+Proof. vm_compute. repeat split. Qed.
+Print Assumptions C06_nonvacuous_discrete.
